@@ -201,6 +201,17 @@ Theorem C07_change_on_builder_model :
 Proof. intros O orc e SE fuel addr extra s o b. apply ChangeInstance.add_change_all_ok. exact SE. Qed.
 Print Assumptions C07_change_on_builder_model.
 
+(* add_output on the builder model, for EVERY oracle: a refused output leaves the builder exactly as it was, an accepted
+   one is appended unchanged -- so a history containing refused adds builds the same body as the history without them *)
+Theorem C07_refused_add_leaves_builder_unchanged :
+  forall (O : Type) (orc : @Change.oracle O) (x : Totals.output) (s : Totals.state) (o : O),
+  match Change.out_res (Change.add_output orc x s o) with
+  | Ok _ => Change.out_st (Change.add_output orc x s o) = Totals.set_s_outputs (Totals.s_outputs s ++ [x]) s
+  | _ => Change.out_st (Change.add_output orc x s o) = s
+  end.
+Proof. intros. apply ChangeInstance.add_output_frame. Qed.
+Print Assumptions C07_refused_add_leaves_builder_unchanged.
+
 (* the other balancing entry points on the builder model.  add_inputs_from_and_change (selection = oracle answer, then
    add_change, then retries of add_change on the state a failed attempt left -- the invariant "every output within the
    limits, or the fee already fixed" survives failing runs); add_inputs_from_and_change_with_collateral_return
